@@ -323,6 +323,13 @@ func (p *Protocol) sendJustifications(resps []*ResponseBundle) bool {
 		}
 		return false
 	}
+	if p.dkg.state == FinishPhase {
+		// a node that leaves the group is done once the responses show no
+		// complaint: it has no result to wait for, so signal the end now
+		// (in fast sync mode nothing else would ever do it)
+		p.res <- OptionResult{}
+		return false
+	}
 	if just != nil {
 		p.Info("sendJustifications", "sending", fmt.Sprintf("from %d responses", len(resps)))
 		p.board.PushJustifications(just)
